@@ -143,7 +143,7 @@ func H_C07_quiet() {
 			b = f.refuseVariant(zz.Param(5), b)
 		}
 	}
-	if (dmg == dmgNumField || dmg == dmgNumEmpty) && numTag == "" {
+	if (dmg == dmgNumField || dmg == dmgNumEmpty || dmg == dmgNumHuge) && numTag == "" {
 		zz.Assume(false)
 	}
 	d := applyDamage(b, dmg, numTag)
@@ -201,7 +201,7 @@ func H_C16_reject() {
 	wasLogged := f.s.IsLogged()
 	seq := seqOfClass(zz.Param(4))
 	b, numTag := mkInbound(kind, peer, me, seq)
-	if (dmg == dmgNumField || dmg == dmgNumEmpty) && numTag == "" {
+	if (dmg == dmgNumField || dmg == dmgNumEmpty || dmg == dmgNumHuge) && numTag == "" {
 		zz.Assume(false)
 	}
 	if dmg == dmgNone {
@@ -220,7 +220,7 @@ func H_C16_reject() {
 		}
 	}
 	d := applyDamage(b, dmg, numTag)
-	seqUsable := dmg != dmgSeqAlpha && dmg != dmgSeqMissing && dmg != dmgSeqEmpty
+	seqUsable := dmg != dmgSeqAlpha && dmg != dmgSeqMissing && dmg != dmgSeqEmpty && dmg != dmgSeqHuge
 	if zz.Param(5) == 1 && seqUsable {
 		// additionally remove MsgSeqNum (only meaningful together with another defect)
 		if dmg != dmgNone {
